@@ -37,6 +37,11 @@ type KnownFinding struct {
 	Text       string
 }
 
+// recordedFindings: obligations listed as `finding:` - clauses that are known NOT to hold on the tree. They are still
+// generated and checked (and reported as KNOWN-FINDING), but nothing may rely on them: assuming a false clause after
+// asserting it, or at the call sites of the function that fails it, would make whatever comes later pass vacuously.
+var recordedFindings = map[string]bool{}
+
 func loadKnownFindings() []KnownFinding {
 	data, err := os.ReadFile(filepath.Join(verifRoot, "KNOWN_FINDINGS"))
 	if err != nil {
@@ -48,6 +53,9 @@ func loadKnownFindings() []KnownFinding {
 		ln = strings.TrimSpace(ln)
 		if m := re.FindStringSubmatch(ln); m != nil {
 			out = append(out, KnownFinding{Kind: m[1], Property: m[2], Commit: m[3], Obligation: m[4], Text: m[5]})
+			if m[1] == "finding" {
+				recordedFindings[m[4]] = true
+			}
 		}
 	}
 	return out
@@ -171,6 +179,7 @@ func cmdCheck(args []string) int {
 		return 1
 	}
 
+	loadKnownFindings() // fills recordedFindings before any obligation is generated
 	cs, err := LoadContracts(repoRoot, []string{filepath.Join(verifRoot, "stdlib.contracts")})
 	if err != nil {
 		return fail("contract files do not parse: " + err.Error())
